@@ -744,6 +744,8 @@ def run(ctx):
             if impl:
                 ecu.busy_sids = set(rng.sample(impl, min(len(impl), rng.randint(1, 3))))
                 ctx.kind("svc:ecu-with-always-busy-services")
+        if any(ent[1] in ("pos-bare", "pos-rec") for d in ecu.svc.values() for ent in d.values()):
+            ctx.kind("svc:ecu-with-services-answering-probes-positively-without-echo")
         if forced == 6:
             # the read-back works in the default session only: the exception paths inside the re-entry loop
             ecu.f186_nondefault = rng.choice(["silent", "nrc31", "nrc22", "garbage"])
